@@ -2,6 +2,7 @@ package c10
 
 import (
 	"bufio"
+	"encoding/json"
 	"fmt"
 	"os"
 	"path/filepath"
@@ -191,6 +192,35 @@ func script(r *hx.Run, layers []*layer, name string, lines []string) {
 	s.finish(false)
 }
 
+// replaySchedules extracts the "schedule=a;b;c" parts of the failures recorded
+// in a replay file written by ./check.
+func replaySchedules(path string) [][]string {
+	b, err := os.ReadFile(path)
+	if err != nil {
+		return nil
+	}
+	var body struct {
+		Failures []struct {
+			Witness string `json:"witness"`
+		} `json:"failures"`
+	}
+	if json.Unmarshal(b, &body) != nil {
+		return nil
+	}
+	var res [][]string
+	for _, f := range body.Failures {
+		i := strings.Index(f.Witness, "schedule=")
+		if i < 0 {
+			continue
+		}
+		res = append(res, strings.Split(f.Witness[i+len("schedule="):], ";"))
+		if len(res) >= 5 {
+			break
+		}
+	}
+	return res
+}
+
 func loadCorpus(dir string) map[string][]string {
 	res := map[string][]string{}
 	ents, err := os.ReadDir(dir)
@@ -240,7 +270,14 @@ func Run(cfg hx.Config) error {
 		script(r, layers, n, corpus[n])
 	}
 
-	nscen := cfg.N(220, 6000)
+	// a replay file: the schedules of its failures, as scripts
+	if cfg.Replay != "" {
+		for i, lines := range replaySchedules(cfg.Replay) {
+			script(r, layers, fmt.Sprintf("replay-%d", i), lines)
+		}
+	}
+
+	nscen := cfg.N(300, 12000)
 	for i := 0; i < nscen && !r.Stop(); i++ {
 		maxTasks := 2 + rnd.Intn(9)
 		if i%40 == 7 {
